@@ -42,6 +42,7 @@ def run(tier):
     rows1, rows2 = clause_bc(P, rep)
     clause_d(P, rep)
     clause_e(P, rep, rows1)
+    clause_g(P, rep)
     return rep
 
 
@@ -218,25 +219,81 @@ def clause_bc(P, rep):
     # instructions: pass 1 adds info.len, pass 2 adds len(process)/2 and appends process' bytes
     r1s = [r for r in rows1 if r.item == "Instruction" and r.seg == "Code" and r.exit == "loop"]
     r2s = [r for r in rows2 if r.item == "Instruction" and r.exit == "loop"]
-    ok1 = bool(r1s) and all(r.delta is not None and re.search(r"^\((segment\*\.address|address) \+ info\(segment\*\.items\[i\]\.1:Instruction\.0, common_context\*\)\.len\)$", sx.show(r.delta)) for r in r1s)
+    def sym_named(e, pred):
+        return [s_ for s_ in sx.syms(e) if pred(s_[1])]
+
+    ok1 = bool(r1s)
+    shown1 = set()
+    for r in r1s:
+        if r.delta is None:
+            ok1 = False
+            continue
+        shown1.add(sx.show(r.delta))
+        lens = sym_named(r.delta, lambda n: n.startswith("info(segment*.items[i].1:Instruction.0") and n.endswith(".len"))
+        if len(lens) != 1:
+            ok1 = False
+            continue
+        for I in (0, 1, 2, 3):
+            for segaddr, addr in ((5000, 3000), (0, 3000)):
+                env = {lens[0][1]: I, "segment*.address": segaddr, "address": addr, "more(segment*.items)": 1}
+                if not L.conds_hold(r.conds, env):
+                    continue
+                start = addr if segaddr == 0 else segaddr
+                try:
+                    if L.eval_expr(r.delta, env) - start != I:
+                        ok1 = False
+                except KeyError:
+                    ok1 = False
     rep.ob("C02.b|instruction|pass1", ok1, "pass 1 advances by Operation::info(op).len words" if ok1 else
-           "pass 1 does not advance by info(op).len for instructions: %s" % sorted({sx.show(r.delta) for r in r1s if r.delta is not None})[:2])
+           "pass 1 does not advance by info(op).len for instructions: %s" % sorted(shown1)[:2])
     ok2 = bool(r2s)
     for r in r2s:
-        sh = sx.show(r.delta) if r.delta is not None else ""
         ap = r.pushed[2] if r.pushed is not None and r.pushed[0] == 'vec' else ()
-        if not re.search(r"^\(segment\*\.address \+ \(\(process\(.*\):Ok\.0#len as u32\) / 2\)\)$", sh) or len(ap) != 1 or ap[0][0] != 'blob' or not str(ap[0][1]).startswith("process("):
+        if r.delta is None or len(ap) != 1 or ap[0][0] != 'blob' or not str(ap[0][1]).startswith("process("):
             ok2 = False
+            continue
+        lens = sym_named(r.delta, lambda n: n.startswith("process(") and n.endswith(":Ok.0#len"))
+        if len(lens) != 1 or lens[0] not in sx.syms(ap[0][2]):
+            ok2 = False
+            continue
+        for pl in (0, 2, 4, 6):
+            env = {lens[0][1]: pl, "segment*.address": 7000, "more(segment*.items)": 1}
+            if not L.conds_hold(r.conds, env):
+                continue
+            try:
+                if L.eval_expr(r.delta, env) - 7000 != pl // 2 or L.eval_expr(ap[0][2], env) != pl:
+                    ok2 = False
+            except KeyError:
+                ok2 = False
     rep.ob("C02.b|instruction|pass2", ok2, "pass 2 appends the encoder's bytes and advances by len/2 words" if ok2 else
            "pass 2 does not append exactly the encoder's bytes / advance by len/2")
     inst_seg = [r for r in rows1 if r.item == "Instruction" and r.seg != "Code"]
     rep.ob("C02.b|instruction|segments", bool(inst_seg) and all(r.exit == "Err" for r in inst_seg), "instructions outside the code segment fail the build")
     # reservations
     r1s = [r for r in rows1 if r.item == "ReserveData" and r.exit == "loop"]
-    okr = bool(r1s) and all(re.search(r"\+ \(segment\*\.items\[i\]\.1:ReserveData\.0 as u32\)\)$", sx.show(r.delta)) for r in r1s)
-    kept = {r.seg: (r.pushed is not None and r.pushed[0] == 'vec' and any(s[0] == 'items' and s[1] for s in r.pushed[2])) for r in r1s}
     r2s = [r for r in rows2 if r.item == "ReserveData" and r.exit == "loop"]
-    okr2 = bool(r2s) and all(re.search(r"\+ \(segment\*\.items\[i\]\.1:ReserveData\.0 as u32\)\)$", sx.show(r.delta)) for r in r2s)
+
+    def byte_ok(rows, startname):
+        ok = bool(rows)
+        for r in rows:
+            if r.delta is None:
+                return False
+            for size in (0, 1, 5, 1000):
+                for segaddr, addr in ((5000, 3000), (0, 3000)):
+                    env = {"segment*.items[i].1:ReserveData.0": size, "segment*.address": segaddr, "address": addr, "more(segment*.items)": 1}
+                    if not L.conds_hold(r.conds, env):
+                        continue
+                    start = segaddr if (startname == "segment" or segaddr != 0) else addr
+                    try:
+                        if L.eval_expr(r.delta, env) - start != size:
+                            ok = False
+                    except KeyError:
+                        ok = False
+        return ok
+
+    okr = byte_ok(r1s, "either")
+    okr2 = byte_ok(r2s, "segment")
+    kept = {r.seg: (r.pushed is not None and r.pushed[0] == 'vec' and any(s_[0] == 'items' and s_[1] for s_ in r.pushed[2])) for r in r1s}
     rep.ob("C02.b|byte", okr and okr2 and kept.get("Eeprom") is True and kept.get("Data") is False,
            ".byte n advances both passes by n; the item is kept for EEPROM (n zero bytes, C06) and dropped for RAM (nothing is emitted)" if okr and okr2 and kept.get("Eeprom") and kept.get("Data") is False else
            ".byte accounting differs between the passes (pass1 %s, pass2 %s, kept %s)" % (okr, okr2, kept))
@@ -364,84 +421,146 @@ def clause_e(P, rep, rows1):
         imgs = {"Code": ret[3][fields.index("code")], "Eeprom": ret[3][fields.index("eeprom")]}
         rec = done.setdefault((t1, t2), {"bad": [], "n": 0, "trips": set()})
         rec["n"] += 1
+
+        def is_fragment(seg):
+            return seg[0] == 'blob' and str(seg[1]).startswith("pass_2_internal(")
+
+        def which(seg):
+            return "[i+1]" if "segments[i+1]" in str(seg[1]) else "[i]"
+
         # fragments land in their own image, in order
         for T, img in imgs.items():
-            blobs = [s[1] for s in img[2] if s[0] == 'blob']
+            if img[0] != 'vec':
+                rec["bad"].append("%s image is not a readable sequence" % T)
+                continue
+            got = [which(sg) for sg in img[2] if is_fragment(sg)]
             want = []
             if t1 == T:
                 want.append("[i]")
             if t2 == T:
                 want.append("[i+1]")
-            got = ["[i+1]" if "segments[i+1]" in b else "[i]" for b in blobs]
             if got != want:
                 rec["bad"].append("%s image holds fragments %s, expected %s" % (T, got, want))
-        if t2 not in ("Code", "Eeprom"):
-            continue
-        img = imgs[t2]
-        segs = list(img[2])
-        # bytes before the second fragment
-        idx = [i for i, s in enumerate(segs) if s[0] == 'blob' and "segments[i+1]" in s[1]]
-        if not idx:
-            rec["bad"].append("second fragment missing from the %s image" % t2)
-            continue
-        before = segs[:idx[0]]
-        pad = before[-1] if before and before[-1][0] == 'items' and (t1 != t2 or len(before) > 1 or True) else None
-        # range events of the second segment's pad loop
-        rng = [e for e in p.events if e[0] == 'range-next' and "segments[i+1]" in e[2]]
-        if not rng:
-            rec["bad"].append("no pad loop for the second segment")
-            continue
-        trips = len(rng) - 1
-        rec["trips"].add(trips)
-        lo, hi = rng[0][4], rng[0][5]
-        # pad bytes on this path: items directly before the fragment that are not part of segment 1's own pad
-        npad = 0
-        if before and before[-1][0] == 'items':
-            if t1 == t2:
-                npad = len(before[-1][1]) if len(before) >= 2 else 0
-            else:
-                npad = len(before[-1][1])
-            zeros = all(it[0] == 'int' and sx.is_const(it[1]) and sx.cval(it[1]) == 0 for it in before[-1][1])
-            if not zeros:
-                rec["bad"].append("padding bytes are not zero")
-        unit = UNIT[t2]
-        if npad != unit * trips:
-            rec["bad"].append("%d pad loop trip(s) append %d byte(s); expected %d per trip" % (trips, npad, unit))
-        # numeric identity  len_before + unit*max(0, hi-lo) == unit*address   for address*unit >= len_before
-        if not sx.is_const(lo) or sx.cval(lo) != 0:
-            rec["bad"].append("pad loop does not start at 0")
-        lens = [s for s in sx.syms(hi) if s[1].endswith("#len")]
-        addr = [s for s in sx.syms(hi) if s[1].endswith("segments[i+1].address")]
-        if len(addr) != 1:
-            rec["bad"].append("pad loop bound does not depend on the segment address: %s" % sx.show(hi))
-            continue
-        for a in (0, 1, 7, 100, 4096):
-            for lb in (0, 2, 6, 40, 200):
-                # len_before = constant bytes already in the image + symbolic fragment length lb
-                env = {addr[0]: a}
-                for s in lens:
-                    env[s] = lb
-                for s in sx.syms(hi):
-                    env.setdefault(s, 0)
-                try:
-                    h = sx.evaluate(hi, env)
-                except sx.Unevaluable:
-                    rec["bad"].append("pad bound not evaluable")
-                    break
-                const_before = sum(len(s[1]) for s in before[:-1] if s[0] == 'items') if t1 == t2 else 0
-                blob_before = sum(lb for s in before if s[0] == 'blob')
-                lenb = (const_before + blob_before) if t1 == t2 else 0
-                # when t1 == t2 the image already holds segment 1's pad (const_before) and fragment (lb)
-                if lenb % unit or a * unit < lenb:
-                    continue
-                if lenb + unit * max(0, h) != unit * a:
-                    rec["bad"].append(".org %d after %d byte(s) of %s: pad loop runs %d time(s) x %d byte(s) -> next item lands at byte %d, expected %d" % (
-                        a, lenb, t2.lower(), max(0, h), unit, lenb + unit * max(0, h), unit * a))
-                    break
+        # position of each fragment: total length of everything in front of it must be unit x its segment's address
+        for T, img in imgs.items():
+            if img[0] != 'vec':
+                continue
+            unit = UNIT[T]
+            before = []
+            for sg in img[2]:
+                if is_fragment(sg):
+                    tag = which(sg)
+                    addr_name = "pass1.segments[i+1].address" if tag == "[i+1]" else "pass1.segments[i].address"
+                    total = C(0, 64, False)
+                    zero_fill = True
+                    for b2 in before:
+                        if b2[0] == 'items':
+                            total = sx.Bin('Add', total, C(len(b2[1]), 64, False), 64, False)
+                            if not is_fragment(b2) and any(not (it[0] == 'int' and sx.is_const(it[1]) and sx.cval(it[1]) == 0) for it in b2[1]):
+                                zero_fill = False
+                        else:
+                            total = sx.Bin('Add', total, b2[2], 64, False)
+                            if not is_fragment(b2) and str(b2[1]) != "fill(0)":
+                                zero_fill = False
+                    if not zero_fill:
+                        rec["bad"].append("padding in front of the %s fragment %s is not zero bytes" % (T, tag))
+                    # pad loops of the old shape leave a trip count we cannot sum: detect and use the loop bound instead
+                    rng = [e for e in p.events if e[0] == 'range-next' and addr_name.split(".")[1] in e[2]]
+                    checked = 0
+                    for a1 in (0, 1, 7, 100, 4096):
+                        for a2 in (0, 3, 64, 5000):
+                            for f1 in (0, 2, 6, 40, 200):
+                                env = {"pass1.segments[i].address": a1, "pass1.segments[i+1].address": a2}
+                                for sy in sx.syms(total) | {sy2 for e_, t_ in p.conds for sy2 in sx.syms(e_)}:
+                                    if sy[1].endswith(":Ok.0#len"):
+                                        env[sy[1]] = f1
+                                if not L.conds_hold(p.conds, env):
+                                    continue
+                                # pass 1 guarantees: a segment never starts below what is already in its image
+                                try:
+                                    tot = L.eval_expr(total, env)
+                                except KeyError as ke:
+                                    rec["bad"].append("length in front of a fragment depends on %s" % ke)
+                                    break
+                                addr = env[addr_name]
+                                if rng:
+                                    continue
+                                checked += 1
+                                if tot < unit * addr:
+                                    rec["bad"].append("%s fragment %s starts at byte %d, its segment's address is %d (x%d = %d): the gap is not filled" % (T, tag, tot, addr, unit, unit * addr))
+                                elif tot > unit * addr:
+                                    # only legal when the image was already longer than the address (excluded by pass 1's overlap guard):
+                                    # the path must then not have padded anything
+                                    grew = any(b2[0] == 'blob' and str(b2[1]).startswith("fill(") for b2 in before[-1:])
+                                    if grew:
+                                        rec["bad"].append("%s fragment %s starts at byte %d although padding ran; expected %d" % (T, tag, tot, unit * addr))
+                    rec["trips"].add(checked)
+                before.append(sg)
+        # old shape (counted pad loops): keep the loop-bound identity
+        for T in ("Code", "Eeprom"):
+            if t2 != T:
+                continue
+            rng = [e for e in p.events if e[0] == 'range-next' and "segments[i+1]" in e[2]]
+            if not rng:
+                continue
+            unit = UNIT[T]
+            lo, hi = rng[0][4], rng[0][5]
+            if not sx.is_const(lo) or sx.cval(lo) != 0:
+                rec["bad"].append("pad loop does not start at 0")
+            addr = [s_ for s_ in sx.syms(hi) if s_[1].endswith("segments[i+1].address")]
+            lens = [s_ for s_ in sx.syms(hi) if s_[1].endswith("#len")]
+            if len(addr) != 1:
+                rec["bad"].append("pad loop bound does not depend on the segment address: %s" % sx.show(hi))
+                continue
+            for a2 in (0, 1, 7, 100, 4096):
+                for lb in (0, 2, 6, 40, 200):
+                    env = {addr[0]: a2}
+                    for s_ in lens:
+                        env[s_] = lb
+                    for s_ in sx.syms(hi):
+                        env.setdefault(s_, 0)
+                    try:
+                        h = sx.evaluate(hi, env)
+                    except sx.Unevaluable:
+                        continue
+                    lenb = lb if (t1 == t2 and lens) else 0
+                    if lenb % unit or a2 * unit < lenb:
+                        continue
+                    if lenb + unit * max(0, h) != unit * a2:
+                        rec["bad"].append(".org %d after %d byte(s) of %s: pad loop runs %d time(s) x %d byte(s)" % (a2, lenb, T.lower(), max(0, h), unit))
     for (t1, t2), rec in sorted(done.items()):
         bad = sorted(set(rec["bad"]))
         rep.ob("C02.e|pad|%s-then-%s" % (t1, t2), not bad,
-               "%s then %s: fragments go to their own image and zero padding brings the image to unit x .org address (%d paths, trips %s)" % (
-                   t1, t2, rec["n"], sorted(rec["trips"])) if not bad else "%s then %s: %s" % (t1, t2, "; ".join(bad[:3])),
+               "%s then %s: fragments go to their own image and zero padding brings the image to unit x .org address (%d paths, %d positions evaluated)" % (
+                   t1, t2, rec["n"], sum(rec["trips"])) if not bad else "%s then %s: %s" % (t1, t2, "; ".join(bad[:3])),
                detail={"problems": bad})
     rep.ob("C02.e|coverage", len(done) == 9, "all 9 ordered pairs of segment types analysed for padding (%d)" % len(done), kind="unprovable", nontrivial=False)
+
+
+# ------------------------------------------------------------------------------------------------ g
+def clause_g(P, rep):
+    """(P) `.org` and `.byte` never drop an operand silently: every success path of their arms in Directive::parse has the directive's
+    effect (segment address stored / reservation item pushed); a missing or unusable operand is an error."""
+    import rules_C08
+    fn = "directive::Directive::parse"
+    dv = rules_C08.dvariants(P)
+    inv = {n: d for d, n in dv.items()}
+    M = absint.Machine(P, max_depth=4, opaque={"expr::Expr::run", "parser::parse_file_internal", "parser::ParseContext::push_to_last",
+                                               "parser::ParseContext::last_segment", "parser::ParseContext::add_segment"})
+    doms = {S("self*#d", 64, True): sx.dom_set([inv["Org"], inv["Byte"]])}
+    paths = M.explore(fn, M.arg_unknowns(fn), doms=doms)
+    for d, effect, what in (("Org", lambda p: any(e[0] == 'store' and e[1].endswith(".2") or (e[0] == 'store' and "address" in e[1]) for e in p.events),
+                             "the segment's start address is stored"),
+                            ("Byte", lambda p: any(e[0] == 'call' and e[1].endswith("::push_to_last") and "ReserveData" in " ".join(e[2]) for e in p.events),
+                             "a reservation item is pushed")):
+        oks = [p for p in paths if p.exit == "Ok" and L.dom1(p.state, "self*#d") == inv[d]]
+        silent = [p for p in oks if not effect(p)]
+        shapes = set()
+        for p in silent:
+            ds = sorted("%s=%s" % (s_[1][-40:], sx.dom_show(dd)) for s_, dd in p.state.doms.items() if isinstance(s_, tuple) and s_[0] == 's' and s_[1].endswith("#d") and s_[1] != "self*#d" and sx.dom_size(dd) <= 3)
+            shapes.add("; ".join(ds))
+        rep.ob("C02.g|%s" % d.lower(), bool(oks) and not silent,
+               ".%s: on every success path %s; anything else is an error" % (d.lower(), what) if oks and not silent else
+               ".%s can succeed without any effect (%d of %d success paths): the operand is silently dropped and everything after it is placed as if the "
+               "directive were not there — operand shapes: %s" % (d.lower(), len(silent), len(oks), sorted(shapes)[:2]),
+               detail={"silent paths": len(silent), "shapes": sorted(shapes)})
